@@ -44,8 +44,13 @@ class Snap:
 
 
 def sel(a, *ks):
+    """a[k1][k2]...; a select on a literal lambda is beta-reduced here (z3 leaves nested redexes to its
+    array solver, where two syntactically different but beta-equal counting terms made proofs unstable)."""
     for k in ks:
-        a = z3.Select(a, k)
+        if z3.is_quantifier(a) and a.is_lambda() and a.num_vars() == 1:
+            a = z3.substitute_vars(a.body(), k)
+        else:
+            a = z3.Select(a, k)
     return a
 
 
